@@ -15,7 +15,7 @@ RULE = (
     "(plus a subrun family: a failing call inside a sub-workflow run through subrun(new_execution=True/False) "
     "with the real local executor, executed twice on one backend: the second execution must call the "
     "failing function again) "
-    "Generated programs with an uncaught error-raising leaf (raise in a task body, throw task, failing "
+    "Generated programs with an uncaught error-raising leaf (raise in a task body, also of an error whose payload cannot be pickled, throw task, failing "
     "python function) placed at job depth 1-4 inside containers, operators, cond/seq/map/catch with a "
     "non-matching class/let, next to succeeding siblings, plus the generic program grammar with "
     "errors; each run under a generated completion schedule, then executed again on the same backend "
@@ -39,6 +39,8 @@ def failing_programs(draw):
     if kind == "throw":
         leaf = ["throw", ek, msg]
     elif kind == "raise_now":
+        if draw(st.integers(0, 3)) == 0:
+            ek = "LockErr"       # an error that cannot be pickled (TypeError): recorded as a generic Exception
         leaf = ["list", [["lit", ["int", 1]], ["raise_now", ek, msg]]]
     else:
         leaf = ["apply", "boom", [["lit", ["int", draw(st.integers(0, 3))]]]]
